@@ -324,4 +324,181 @@ theorem trifill_frag_pixel (a b c : List K) (m : Nat) (hm : 1 < m)
       rw [scan_nil_of_eq _ _ _ _ _ _ heq] at h
       simp at h
 
+/-! ### What one triangle delivers to one pixel -/
+
+/-- **One fragment per triangle per pixel.** For screen tuples of a common length ≥ 2 with y ≥ −½: pixel
+(x, y) receives nothing from `tri_fill a b c` when it is not covered, and exactly one fragment when it is —
+`zdiv` of fragment `x − x0` of the unique row of that `y`. -/
+theorem fragsAt_trifill (a b c : List K) (m : Nat) (hm : 1 < m)
+    (ha : a.length = m) (hb : b.length = m) (hc : c.length = m)
+    (hy : ∀ v ∈ [a, b, c], -(1 / 2) ≤ nth1 v) (x y : Nat) :
+    (¬ Covers (triFill a b c) x y → fragsAt (triFill a b c) x y = []) ∧
+    (Covers (triFill a b c) x y →
+      ∃ row ∈ triFill a b c, ∃ f, row.y = y ∧ row.x0 ≤ x ∧ x < row.x1 ∧ row.frags[x - row.x0]? = some f ∧
+        (∀ row' ∈ triFill a b c, row'.y = y → row' = row) ∧
+        fragsAt (triFill a b c) x y = [zdiv f]) := by
+  obtain ⟨hs, hlen⟩ := trifill_sorted a b c m hm ha hb hc hy
+  constructor
+  · intro hnc
+    apply fragsAt_nil_of
+    intro s hs'
+    rw [slFrag_eq, if_neg]
+    rintro ⟨h1, h2, h3⟩
+    exact hnc ⟨s, hs', h1, h2, h3⟩
+  · rintro ⟨row, hrow, hry, hx0, hx1⟩
+    have hl := hlen row hrow
+    have hj : x - row.x0 < row.frags.length := by omega
+    refine ⟨row, hrow, row.frags[x - row.x0], hry, hx0, hx1, List.getElem?_eq_getElem hj, ?_, ?_⟩
+    · intro row' hrow' hy'
+      exact sorted_rows_inj _ hs row' row hrow' hrow (by rw [hy', hry])
+    · subst hry
+      rw [fragsAt_sorted _ hs row hrow x, slFrag_eq, if_pos ⟨rfl, hx0, hx1⟩, List.getElem?_eq_getElem hj]
+      rfl
+
+/-- Centre of pixel (x, y). -/
+def centre (x y : Nat) : K × K := ((x : K) + 1 / 2, (y : K) + 1 / 2)
+
+/-- Barycentric coordinates of the point `p` in the screen triangle `a b c`: `E_bc/o`, `E_ca/o`, `E_ab/o`
+(the weights of `Retro.Props.C04.inside_bary`). -/
+def baryA (a b c : List K) (p : K × K) : K := edgeFn (pt b) (pt c) p / orient (pt a) (pt b) (pt c)
+def baryB (a b c : List K) (p : K × K) : K := edgeFn (pt c) (pt a) p / orient (pt a) (pt b) (pt c)
+def baryC (a b c : List K) (p : K × K) : K := edgeFn (pt a) (pt b) p / orient (pt a) (pt b) (pt c)
+
+/-- The raw (pre-`zdiv`) tuple of the ideal fragment at pixel (x, y): every component (x, y, 1/w, attr/w)
+evaluated at the pixel centre on the plane through the three vertex tuples. -/
+def idealRaw (a b c : List K) (x y : Nat) : List K :=
+  combL (baryA a b c (centre x y)) (baryB a b c (centre x y)) (baryC a b c (centre x y)) a b c
+
+/-- The ideal fragment: attributes divided by the interpolated reciprocal depth. -/
+def idealFrag (a b c : List K) (x y : Nat) : List K := zdiv (idealRaw a b c x y)
+
+theorem area2_eq_orient (a b c : List K) : area2 a b c = orient (pt a) (pt b) (pt c) := rfl
+
+/-- An affine combination of three points that reproduces `p` has the edge-function weights: for a
+non-degenerate triangle (`orient ≠ 0`) the weights are unique. -/
+theorem bary_unique (a b c p : K × K) (α β γ : K) (hs : α + β + γ = 1)
+    (hx : p.1 = α * a.1 + β * b.1 + γ * c.1) (hy : p.2 = α * a.2 + β * b.2 + γ * c.2) :
+    edgeFn b c p = α * orient a b c ∧ edgeFn c a p = β * orient a b c ∧ edgeFn a b p = γ * orient a b c := by
+  have hg : γ = 1 - α - β := by linarith
+  unfold edgeFn orient cross
+  rw [hx, hy, hg]
+  refine ⟨?_, ?_, ?_⟩ <;> ring
+
+theorem nth0_combL (α β γ : K) (a b c : List K) (ha : 0 < a.length) (hb : 0 < b.length) (hc : 0 < c.length) :
+    nth0 (combL α β γ a b c) = α * nth0 a + β * nth0 b + γ * nth0 c := by
+  match a, b, c, ha, hb, hc with
+  | _ :: _, _ :: _, _ :: _, _, _, _ => simp [combL, nth0]
+
+theorem nth1_combL (α β γ : K) (a b c : List K) (ha : 1 < a.length) (hb : 1 < b.length) (hc : 1 < c.length) :
+    nth1 (combL α β γ a b c) = α * nth1 a + β * nth1 b + γ * nth1 c := by
+  match a, b, c, ha, hb, hc with
+  | _ :: _ :: _, _ :: _ :: _, _ :: _ :: _, _, _, _ => simp [combL, nth1]
+
+theorem nth2_combL (α β γ : K) (a b c : List K) (h1 : a.length = b.length) (h2 : b.length = c.length) :
+    nth2 (combL α β γ a b c) = α * nth2 a + β * nth2 b + γ * nth2 c := by
+  rcases a with _ | ⟨x0, _ | ⟨x1, _ | ⟨x2, xs⟩⟩⟩ <;> rcases b with _ | ⟨y0, _ | ⟨y1, _ | ⟨y2, ys⟩⟩⟩ <;>
+    rcases c with _ | ⟨z0, _ | ⟨z1, _ | ⟨z2, zs⟩⟩⟩ <;> simp at h1 h2 <;> simp [combL, nth2]
+
+theorem nth0_zdiv (v : List K) : nth0 (zdiv v) = nth0 v := by
+  rcases v with _ | ⟨x0, _ | ⟨x1, _ | ⟨x2, xs⟩⟩⟩ <;> simp [zdiv, nth0]
+
+theorem nth1_zdiv (v : List K) : nth1 (zdiv v) = nth1 v := by
+  rcases v with _ | ⟨x0, _ | ⟨x1, _ | ⟨x2, xs⟩⟩⟩ <;> simp [zdiv, nth1]
+
+theorem nth2_zdiv (v : List K) : nth2 (zdiv v) = nth2 v := by
+  rcases v with _ | ⟨x0, _ | ⟨x1, _ | ⟨x2, xs⟩⟩⟩ <;> simp [zdiv, nth2]
+
+/-- The barycentric coordinates of a centre that passes the inside test are ≥ 0, sum to 1 and reproduce
+the centre (`inside_bary` on the screen tuples). -/
+theorem bary_of_inside (a b c : List K) (x y : Nat) (hin : Inside (pt a) (pt b) (pt c) (centre x y)) :
+    0 ≤ baryA a b c (centre x y) ∧ 0 ≤ baryB a b c (centre x y) ∧ 0 ≤ baryC a b c (centre x y) ∧
+    baryA a b c (centre x y) + baryB a b c (centre x y) + baryC a b c (centre x y) = 1 ∧
+    (x : K) + 1 / 2 = baryA a b c (centre x y) * nth0 a + baryB a b c (centre x y) * nth0 b
+      + baryC a b c (centre x y) * nth0 c ∧
+    (y : K) + 1 / 2 = baryA a b c (centre x y) * nth1 a + baryB a b c (centre x y) * nth1 b
+      + baryC a b c (centre x y) * nth1 c :=
+  inside_bary (pt a) (pt b) (pt c) (centre x y) hin
+
+/-- **What that fragment is.** For screen tuples of a common length ≥ 2 with all coordinates ≥ −½: the
+pixel whose centre passes the three-edge-function test receives exactly the ideal fragment — the
+combination of the three vertex tuples with the barycentric coordinates of the pixel centre, attributes
+divided by the interpolated reciprocal depth; every other pixel receives nothing. -/
+theorem fragsAt_trifill_ideal (a b c : List K) (m : Nat) (hm : 1 < m)
+    (ha : a.length = m) (hb : b.length = m) (hc : c.length = m)
+    (hy : ∀ v ∈ [a, b, c], -(1 / 2) ≤ nth1 v) (hx : ∀ v ∈ [a, b, c], -(1 / 2) ≤ nth0 v) (x y : Nat) :
+    (Inside (pt a) (pt b) (pt c) (centre x y) → fragsAt (triFill a b c) x y = [idealFrag a b c x y]) ∧
+    (¬ Inside (pt a) (pt b) (pt c) (centre x y) → fragsAt (triFill a b c) x y = []) := by
+  have hcov : Covers (triFill a b c) x y ↔ Inside (pt a) (pt b) (pt c) (centre x y) :=
+    trifill_covers_iff_inside a b c m hm ha hb hc hy x y
+  obtain ⟨hnil, hone⟩ := fragsAt_trifill a b c m hm ha hb hc hy x y
+  refine ⟨fun hin => ?_, fun hnin => hnil (fun h => hnin (hcov.mp h))⟩
+  obtain ⟨row, hrow, f, hry, hx0, hx1, hf, -, hfr⟩ := hone (hcov.mpr hin)
+  rw [hfr]
+  have ho : orient (pt a) (pt b) (pt c) ≠ 0 := hin.1
+  obtain ⟨α, β, γ, hsum, hfe⟩ := frag_on_plane a b c (by rw [ha, hb]) (by rw [hb, hc]) row hrow f
+    (List.mem_of_getElem? hf)
+  obtain ⟨px, py⟩ := trifill_frag_pixel a b c m hm ha hb hc ho hy hx row hrow _ f hf
+  rw [hfe, nth0_combL _ _ _ _ _ _ (by omega) (by omega) (by omega)] at px
+  rw [hfe, nth1_combL _ _ _ _ _ _ (by omega) (by omega) (by omega)] at py
+  have hcx : (row.x0 : K) + ((x - row.x0 : Nat) : K) + 1 / 2 = (x : K) + 1 / 2 := by
+    rw [Nat.cast_sub hx0]; ring
+  obtain ⟨e1, e2, e3⟩ := bary_unique (pt a) (pt b) (pt c) (centre x y) α β γ hsum
+    (by show (x : K) + 1 / 2 = _; rw [← hcx, ← px]; rfl)
+    (by show (y : K) + 1 / 2 = _; rw [← hry, ← py]; rfl)
+  unfold idealFrag idealRaw baryA baryB baryC
+  rw [e1, e2, e3, mul_div_cancel_right₀ _ ho, mul_div_cancel_right₀ _ ho, mul_div_cancel_right₀ _ ho, hfe]
+
+/-- The ideal fragment sits at the pixel centre. -/
+theorem idealFrag_pos (a b c : List K) (m : Nat) (hm : 1 < m)
+    (ha : a.length = m) (hb : b.length = m) (hc : c.length = m) (x y : Nat)
+    (hin : Inside (pt a) (pt b) (pt c) (centre x y)) :
+    nth0 (idealFrag a b c x y) = (x : K) + 1 / 2 ∧ nth1 (idealFrag a b c x y) = (y : K) + 1 / 2 := by
+  obtain ⟨-, -, -, -, hX, hY⟩ := bary_of_inside a b c x y hin
+  unfold idealFrag idealRaw
+  rw [nth0_zdiv, nth1_zdiv, nth0_combL _ _ _ _ _ _ (by omega) (by omega) (by omega),
+    nth1_combL _ _ _ _ _ _ (by omega) (by omega) (by omega)]
+  exact ⟨hX.symm, hY.symm⟩
+
+/-- Its depth slot is the value, at the pixel centre, of the plane through the three vertices' depth slots
+(`z = 1/w`): the barycentric combination. -/
+theorem idealFrag_depth (a b c : List K) (h1 : a.length = b.length) (h2 : b.length = c.length) (x y : Nat) :
+    nth2 (idealFrag a b c x y) = baryA a b c (centre x y) * nth2 a + baryB a b c (centre x y) * nth2 b
+      + baryC a b c (centre x y) * nth2 c := by
+  unfold idealFrag idealRaw
+  rw [nth2_zdiv, nth2_combL _ _ _ _ _ _ h1 h2]
+
+/-- **The depth of a covered pixel's fragment lies between the smallest and the largest vertex depth.** -/
+theorem frag_depth_between (a b c : List K) (h1 : a.length = b.length) (h2 : b.length = c.length) (x y : Nat)
+    (hin : Inside (pt a) (pt b) (pt c) (centre x y)) :
+    min (nth2 a) (min (nth2 b) (nth2 c)) ≤ nth2 (idealFrag a b c x y) ∧
+    nth2 (idealFrag a b c x y) ≤ max (nth2 a) (max (nth2 b) (nth2 c)) := by
+  obtain ⟨hA, hB, hC, hsum, -, -⟩ := bary_of_inside a b c x y hin
+  rw [idealFrag_depth a b c h1 h2]
+  generalize baryA a b c (centre x y) = α at *
+  generalize baryB a b c (centre x y) = β at *
+  generalize baryC a b c (centre x y) = γ at *
+  constructor
+  · set lo := min (nth2 a) (min (nth2 b) (nth2 c)) with hlo
+    have la : lo ≤ nth2 a := min_le_left _ _
+    have lb : lo ≤ nth2 b := le_trans (min_le_right _ _) (min_le_left _ _)
+    have lc : lo ≤ nth2 c := le_trans (min_le_right _ _) (min_le_right _ _)
+    clear_value lo
+    have e : α * nth2 a + β * nth2 b + γ * nth2 c - lo
+        = α * (nth2 a - lo) + β * (nth2 b - lo) + γ * (nth2 c - lo) := by linear_combination lo * hsum
+    have := mul_nonneg hA (sub_nonneg.mpr la)
+    have := mul_nonneg hB (sub_nonneg.mpr lb)
+    have := mul_nonneg hC (sub_nonneg.mpr lc)
+    linarith
+  · set hi := max (nth2 a) (max (nth2 b) (nth2 c)) with hhi
+    have la : nth2 a ≤ hi := le_max_left _ _
+    have lb : nth2 b ≤ hi := le_trans (le_max_left _ _) (le_max_right _ _)
+    have lc : nth2 c ≤ hi := le_trans (le_max_right _ _) (le_max_right _ _)
+    clear_value hi
+    have e : hi - (α * nth2 a + β * nth2 b + γ * nth2 c)
+        = α * (hi - nth2 a) + β * (hi - nth2 b) + γ * (hi - nth2 c) := by linear_combination (-hi) * hsum
+    have := mul_nonneg hA (sub_nonneg.mpr la)
+    have := mul_nonneg hB (sub_nonneg.mpr lb)
+    have := mul_nonneg hC (sub_nonneg.mpr lc)
+    linarith
+
 end Retro.Props.C01
